@@ -52,7 +52,7 @@ def src_files():
 SRC_ORDER = ['GenPrim', 'GenWidthP', 'GenPrimP', 'GenDiv', 'GenDivP', 'GenLoopP', 'GenIterP', 'GenUint', 'GenUintP', 'GenMod', 'GenModP',
              'GenShift', 'GenShiftP', 'GenMul', 'GenMulP', 'GenInt', 'GenIntP', 'GenDivLimb', 'GenDivLimbP', 'GenBits', 'GenBitsP', 'GenDivCt', 'GenDivCtP', 'GenMonty', 'GenMontyP', 'GenHex', 'GenHexP', 'GenConv', 'GenConvP',
              'GenSqrt', 'GenSqrtP', 'GenIntDiv', 'GenIntDivP', 'GenMulMod', 'GenMulModP', 'GenAmm', 'GenAmmP',
-             'GenSafeGcd', 'GenSafeGcdP', 'GenSafeGcdJumpP', 'GenSafeGcdBitsP', 'GenWrap', 'GenWrapP', 'GenCmp', 'GenCmpP', 'GenIntCmp', 'GenIntCmpP']
+             'GenSafeGcd', 'GenSafeGcdP', 'GenSafeGcdJumpP', 'GenSafeGcdBitsP', 'GenWrap', 'GenWrapP', 'GenCmp', 'GenCmpP', 'GenIntCmp', 'GenIntCmpP', 'GenLogic', 'GenLogicP']
 # source-derived leakage model of C01 (tools/rs2v_leak.py): Leak<G>.v is generated next to Gen<G>.v, Leak<G>P.v is hand-written
 _LEAK_GROUPS = ['Prim', 'Div', 'Uint', 'Mod', 'Shift', 'Mul', 'Int', 'DivLimb', 'Monty', 'Hex', 'Bits', 'DivCt', 'Sqrt', 'Amm', 'MulMod', 'IntDiv', 'Cmp', 'IntCmp', 'Conv', 'Wrap', 'SafeGcd']
 _LEAK = ['LeakIterP'] + [x for g in _LEAK_GROUPS for x in ('Leak' + g, 'Leak' + g + 'P')]
@@ -61,7 +61,7 @@ _PRIM = ['GenPrim', 'GenWidthP', 'GenPrimP']
 _UINT = _PRIM + ['GenLoopP', 'GenUint', 'GenUintP']
 SRC_NEEDS = {'C02': _PRIM + ['GenDiv', 'GenDivP', 'GenLoopP', 'GenIterP', 'GenUint', 'GenUintP', 'GenShift', 'GenShiftP', 'GenMul', 'GenMulP',
                      'GenDivLimb', 'GenDivLimbP', 'GenBits', 'GenBitsP', 'GenDivCt', 'GenDivCtP'], 'C03': _PRIM + ['GenLoopP', 'GenIterP', 'GenShift', 'GenMul', 'GenMulP'], 'C04': _UINT, 'C06': _UINT,
-             'C05': _PRIM + ['GenLoopP', 'GenIterP', 'GenUint', 'GenUintP', 'GenShift', 'GenShiftP', 'GenBits', 'GenBitsP'], 'C07': _UINT + ['GenMod', 'GenModP'],
+             'C05': _PRIM + ['GenLoopP', 'GenIterP', 'GenUint', 'GenUintP', 'GenShift', 'GenShiftP', 'GenBits', 'GenBitsP', 'GenMod', 'GenLogic', 'GenLogicP'], 'C07': _UINT + ['GenMod', 'GenModP'],
              'C13': _UINT + ['GenInt', 'GenIntP'],
              'C08': _UINT + ['GenIterP', 'GenMod', 'GenModP', 'GenShift', 'GenMul', 'GenMulP', 'GenMonty', 'GenMontyP'],
              'C16': ['GenHex', 'GenHexP', 'GenConv', 'GenConvP']}
